@@ -153,8 +153,8 @@ def stage_gen_replay(ctx, st, only=None):
                                   timeout=st.get("driver_timeout", 420), test=st.get("go_test"))
     n = res.get("replayed", 0)
     log("[replay] %d items replayed on the real code, %d steps compared, %d mismatches, %.1fs" %
-        (n, res.get("steps", 0), len(res.get("mismatches", [])), res["_wall"]))
-    if n < len(items) and not res.get("mismatches"):
+        (n, res.get("steps", 0), len(res.get("mismatches") or []), res["_wall"]))
+    if n < len(items) and not (res.get("mismatches") or []):
         raise Infra("driver replayed %d of %d items" % (n, len(items)))
     ctx.traces += n
     ctx.evaluations += res.get("steps", n)
@@ -166,7 +166,7 @@ def stage_gen_replay(ctx, st, only=None):
         ctx.add_sample({"stage": "gen_replay", "item": v})
     ctx.exhaustive.append(exhaustive)
     seen_sig = set()
-    for mm in res.get("mismatches", []):
+    for mm in (res.get("mismatches") or []):
         scn = items[mm["b"]] if 0 <= mm.get("b", -1) < len(items) else None
         detail = {"what": mm.get("what", "replay mismatch"), "step": mm.get("step"),
                   "expected": mm.get("expected"), "actual": mm.get("actual")}
